@@ -180,6 +180,15 @@ func layer2(t *testing.T, r *vp.Recorder, depth int) {
 		{name: "uncache-oldest", kind: "uncache", cid: func(f []int, _ *int) int { return f[0] }},
 		{name: "uncache-newest", kind: "uncache", cid: func(f []int, _ *int) int { return f[len(f)-1] }},
 		{name: "announce-evicted", kind: "announce", cid: func(_ []int, _ *int) int { return -1 }, peer: allowed},
+		// the CID that entered the cache last (not the one used last: duplicates
+		// of other CIDs may have been refreshed since)
+		{name: "announce-last-added", kind: "announce", cid: func(_ []int, _ *int) int { return -2 }, peer: allowed},
+		// macro step: capacity-1 fresh CIDs in a row, so that a short sequence
+		// reaches across the whole cache
+		{name: "burst-of-capacity-1-fresh", kind: "burst", peer: allowed},
+	}
+	if depth >= 4 {
+		ops = append(ops, rop{name: "burst-of-capacity-2-fresh", kind: "burst2", peer: allowed})
 	}
 	prefixes := []string{"plain", "refreshed-in-the-middle", "uncached-and-reannounced"}
 	var rec func(seq []int)
@@ -259,6 +268,12 @@ func layer2(t *testing.T, r *vp.Recorder, depth int) {
 						}
 						fresh := 1000
 						evicted := -1
+						lastAdded := fill[len(fill)-1]
+						if pv == "plain" {
+							lastAdded = size - 1
+						} else if pv == "refreshed-in-the-middle" {
+							lastAdded = size - 1 // the refresh added nothing
+						}
 						for k, oi := range seq {
 							o := ops[oi]
 							// fill tracks the model's order, oldest first
@@ -271,7 +286,24 @@ func layer2(t *testing.T, r *vp.Recorder, depth int) {
 							if len(order) < 2 {
 								return
 							}
+							if o.kind == "burst" || o.kind == "burst2" {
+								n := size - 1
+								if o.kind == "burst2" {
+									n = size - 2
+								}
+								for j := 0; j < n; j++ {
+									fresh++
+									if !step(fmt.Sprintf("step %d %s #%d", k, o.name, j), fresh, o.peer) {
+										return
+									}
+									lastAdded = fresh
+								}
+								continue
+							}
 							c := o.cid(order, &fresh)
+							if c == -2 {
+								c = lastAdded
+							}
 							if c == -1 {
 								c = evicted
 								if c == -1 {
@@ -285,8 +317,12 @@ func layer2(t *testing.T, r *vp.Recorder, depth int) {
 								m.remove(fmt.Sprint(c))
 							default:
 								lenBefore := len(m.items)
+								wasCached := m.idx(fmt.Sprint(c)) >= 0
 								if !step(fmt.Sprintf("step %d %s", k, o.name), c, o.peer) {
 									return
+								}
+								if o.peer != denied && !wasCached {
+									lastAdded = c
 								}
 								if len(m.items) == lenBefore && lenBefore == size && m.idx(fmt.Sprint(before)) < 0 {
 									evicted = before
@@ -660,7 +696,7 @@ func layer4(t *testing.T, r *vp.Recorder, depth int) {
 
 func TestCheck(t *testing.T) {
 	r := vp.New("C09", "model_checking",
-		"three layers, all against one reference model (allow predicate, then an LRU set with refresh-on-hit and explicit removal): (1) the LRU object (test-only export) at capacities 1..3 over capacity+2 strings: every sequence of exactly `depth` update/remove operations, return value and length compared after every step; (2) the real receiver (no pubsub) at its real capacity: a fill prefix of exactly capacity distinct CIDs (three variants: plain, one refreshed in the middle, one un-cached and re-announced) followed by every sequence of <= N operations over {announce oldest / second-oldest / newest / a fresh CID / a fresh CID from a denied peer / the oldest CID from a denied peer / the CID evicted last, un-cache oldest / newest}; after each announcement a consumer calls Next and quiescence in a synctest bubble decides delivered / not delivered; (3) every address list of <= M over 12 addresses (public, private ranges, loopback, unspecified, unique-local, localhost) with filtering on and off; (4) the pubsub path: every sequence of <= K messages over {plain from F, republished by relay R for origin O, republished for a denied origin, plain from a denied peer, republished by a denied relay for O, own republication, malformed payload, direct announcement with resend, repeats of the previous CID}, delivery / non-delivery and attribution decided by quiescence. states = distinct sequences; transitions = operations; traces = sequences executed on the real code.",
+		"three layers, all against one reference model (allow predicate, then an LRU set with refresh-on-hit and explicit removal): (1) the LRU object (test-only export) at capacities 1..3 over capacity+2 strings: every sequence of exactly `depth` update/remove operations, return value and length compared after every step; (2) the real receiver (no pubsub) at its real capacity: a fill prefix of exactly capacity distinct CIDs (three variants: plain, one refreshed in the middle, one un-cached and re-announced) followed by every sequence of <= N operations over {announce oldest / second-oldest / newest / a fresh CID / a fresh CID from a denied peer / the oldest CID from a denied peer / the CID evicted last / the CID added last / a burst of capacity-1 fresh CIDs, un-cache oldest / newest}; after each announcement a consumer calls Next and quiescence in a synctest bubble decides delivered / not delivered; (3) every address list of <= M over 12 addresses (public, private ranges, loopback, unspecified, unique-local, localhost) with filtering on and off; (4) the pubsub path: every sequence of <= K messages over {plain from F, republished by relay R for origin O, republished for a denied origin, plain from a denied peer, republished by a denied relay for O, own republication, malformed payload, direct announcement with resend, repeats of the previous CID}, delivery / non-delivery and attribution decided by quiescence. states = distinct sequences; transitions = operations; traces = sequences executed on the real code.",
 		"reference model is the oracle (trusted, 30 lines)",
 		"pubsub path (layer 4): one libp2p host without transports and one gossipsub topic inside a synctest bubble; messages are injected on the topic under arbitrary author identities; multi-host gossip is not driven",
 		"non-public is judged by net.IP.IsLoopback/IsPrivate/IsUnspecified and the name localhost, independently of go-multiaddr's own classification",
